@@ -10,7 +10,7 @@ def run_tlc(module, cfg, wd, env=None, workers=None, timeout=900, extra=(), heap
     meta = os.path.join(wd, "meta_" + os.path.splitext(os.path.basename(cfg))[0])
     shutil.rmtree(meta, ignore_errors=True)
     os.makedirs(meta, exist_ok=True)
-    jopts = ["-XX:+UseParallelGC", "-Xmx" + heap]
+    jopts = ["-XX:+UseParallelGC", "-Xmx" + heap, "-DTLA-Library=" + SPEC]
     if dfs_queue:
         jopts.append("-Dtlc2.tool.queue.IStateQueue=StateDeque")
     cmd = ["java"] + jopts + ["-cp", JAVA_CP, "tlc2.TLC", "-workers", str(workers or NCPU), "-metadir", meta,
@@ -18,7 +18,7 @@ def run_tlc(module, cfg, wd, env=None, workers=None, timeout=900, extra=(), heap
     if simulate:
         cmd += ["-simulate", simulate]
     cmd.append(module)
-    rc, out, err = run(cmd, timeout=timeout, env=env, cwd=SPEC)
+    rc, out, err = run(cmd, timeout=timeout, env=env, cwd=os.path.dirname(module) if os.path.isabs(module) else SPEC)
     shutil.rmtree(meta, ignore_errors=True)
     res = {"rc": rc, "out": out, "err": err, "json": [], "violated": None, "error": None,
            "generated": 0, "distinct": 0, "depth": 0, "ok": False}
